@@ -65,6 +65,10 @@ pub struct IoPolicy {
     pub pend_read: Pend,
     /// explicit read chunk sizes, consumed before `read` applies
     pub read_chunks: Vec<usize>,
+    /// a transport that took only part of a buffer is busy for this long (virtual microseconds)
+    /// before the next write call goes through; no client timer can fire inside a write await
+    #[serde(default)]
+    pub slow_write_us: u64,
 }
 
 impl Default for IoPolicy {
@@ -76,6 +80,7 @@ impl Default for IoPolicy {
             pend_flush: Pend::Never,
             pend_read: Pend::Never,
             read_chunks: vec![],
+            slow_write_us: 0,
         }
     }
 }
